@@ -16,7 +16,7 @@ import (
 	"strings"
 )
 
-var inertCalls = []string{"len", "fmt.", "log.", "time.Now", "time.Since", "k8s.NodePodsRemaining", "now.Sub", "opts.nodeGroup.Opts."}
+var inertCalls = []string{"nodeGroup.cpuCapacity.", "nodeGroup.memCapacity.", "len", "fmt.", "log.", "time.Now", "time.Since", "k8s.NodePodsRemaining", "now.Sub", "opts.nodeGroup.Opts."}
 
 func callsAllowed(e ast.Expr) bool {
 	ok := true
